@@ -26,7 +26,9 @@ Inductive eff :=
 | OverwriteNoDrop   (* ptr::write(this, rc): the old handle is overwritten, no Rc::drop         *)
 | ReturnOk | ReturnErr | Return
 (* rc.rs: raw-pointer functions; CloneValue on a ManuallyDrop<Rc<T>> is Rc::clone *)
-| ManuallyDropNew | FromRaw | DropFromRaw | AsPtr | DataOffset | FromPtr.
+| ManuallyDropNew | FromRaw | DropFromRaw | AsPtr | DataOffset | FromPtr
+(* any call into the Rc API that has no marker of its own: never expected *)
+| OtherCall.
 
 Inductive enode :=
 | E (e : eff)
